@@ -29,7 +29,7 @@ ASSUMPTIONS = [
     "the processes executor is sampled on a subset of recipes because of its start-up cost",
 ]
 NSHARDS = {"quick": 16, "thorough": 32}
-PER_SHARD = {"quick": 110, "thorough": 1800}
+PER_SHARD = {"quick": 110, "thorough": 700}
 
 
 def shards(tier, seed):
@@ -74,7 +74,7 @@ def replay(rep, workdir):
 
 def finalize(tier, merged):
     c = merged["counters"]
-    floor = 800 if tier == "quick" else 20000
+    floor = 800 if tier == "quick" else 12000
     missing = sorted(set(optable.expected_ops()) - set(merged["hist"].get("ops", {})))
     return {
         "rule": RULE,
